@@ -11,6 +11,9 @@ import Pamiq.Model.ModelsDriver
 import Pamiq.Model.BufferDriver
 import Pamiq.Model.KeeperDriver
 import Pamiq.Model.BookkeepDriver
+import Pamiq.Model.SchedDriver
+import Pamiq.Model.AdjustDriver
+import Pamiq.Model.TrainerDriver
 open Pamiq
 
 structure DState where
@@ -27,6 +30,10 @@ structure DState where
   -- C18 (Keeper)
   keeper : Option Keeper.St := none
   stats : Bookkeep.DSt := {}
+  -- C15 Sched / C16 Adjust / C13 Trainer
+  sched : Sched.DSt := {}
+  adjust : Adjust.DSt := {}
+  trainer : Trainer.DSt := {}
 
 def handle (st : DState) (line : String) : DState × String :=
   match (line.trimAscii.toString.splitOn " ").filter (· ≠ "") with
@@ -62,6 +69,15 @@ def handle (st : DState) (line : String) : DState × String :=
   | "stats" :: rest =>
     let (b, out) := Bookkeep.drive st.stats rest
     ({ st with stats := b }, out)
+  | "sched" :: rest =>
+    let (d, out) := Sched.drive st.sched rest
+    ({ st with sched := d }, out)
+  | "adjust" :: rest =>
+    let (d, out) := Adjust.drive st.adjust rest
+    ({ st with adjust := d }, out)
+  | "trainer" :: rest =>
+    let (d, out) := Trainer.drive st.trainer rest
+    ({ st with trainer := d }, out)
   | _ => (st, "bad-op")
 
 partial def loop (h : IO.FS.Stream) (out : IO.FS.Stream) (st : DState) : IO Unit := do
